@@ -85,12 +85,12 @@ func mkErr(name string, class int) error {
 
 type scriptTarget struct {
 	onlyStatusFaults bool // faults only in per-recipient body statuses
-	lenientAbort bool // Abort after a failed Commit is tolerated (not every caller's contract forbids it)
-	name       string
-	partial    bool // offers module.PartialDelivery
-	faultFree  bool
-	attempt    int
-	deliveries []*scriptDelivery
+	lenientAbort     bool // Abort after a failed Commit is tolerated (not every caller's contract forbids it)
+	name             string
+	partial          bool // offers module.PartialDelivery
+	faultFree        bool
+	attempt          int
+	deliveries       []*scriptDelivery
 }
 
 type scriptDelivery struct {
